@@ -1005,6 +1005,15 @@ fn cmd_run(o: &Opts) -> i32 {
             })
             .collect();
         collect(&mut st, &mut found, &mixed);
+        // phase 4d: long lives of one directory
+        let n_soak = o.runs.map(|r| r / 10).unwrap_or(if quick { 8 } else { 300 });
+        let soak: Vec<History> = (0..n_soak)
+            .map(|i| {
+                let seed = derive(o.seed, "C15-soak", i as u64);
+                gen::c15_soak(&ctx, &mut Rng::new(seed), seed, quick)
+            })
+            .collect();
+        collect(&mut st, &mut found, &soak);
         // phase 5: the same code built with other embedded data ("written for other data" for real)
         let mut n_two = 0;
         let mut two_note = "skipped: no alternative build was provided (./check C15 thorough builds one)".to_string();
@@ -1047,7 +1056,7 @@ fn cmd_run(o: &Opts) -> i32 {
             n_two = two.len();
             collect(&mut st, &mut found, &two);
         }
-        extra = json!({"mixed_fault_kind_histories": n_mixed, "full_disk_histories": n_disk, "full_disk": if mount_ok { "the data directory on a tmpfs of its own whose free pages (0..=44) and free inodes (0..=18) are swept; ENOSPC comes from the kernel" } else { "skipped: this process may not mount a tmpfs" }, "two_build_histories": n_two, "two_build": two_note, "syscall_level_histories": n_sys, "syscall_injector": if strace_ok { "strace -f -e inject=<call>:signal=SIGKILL|error=<errno>:when=K around the simnode child" } else { "skipped: strace not available" },
+        extra = json!({"long_life_histories": n_soak, "mixed_fault_kind_histories": n_mixed, "full_disk_histories": n_disk, "full_disk": if mount_ok { "the data directory on a tmpfs of its own whose free pages (0..=44) and free inodes (0..=18) are swept; ENOSPC comes from the kernel" } else { "skipped: this process may not mount a tmpfs" }, "two_build_histories": n_two, "two_build": two_note, "syscall_level_histories": n_sys, "syscall_injector": if strace_ok { "strace -f -e inject=<call>:signal=SIGKILL|error=<errno>:when=K around the simnode child" } else { "skipped: strace not available" },
             "listed_states": states.len(), "undisturbed_state_probes": probes.len(), "state_x_crash_point_cells": n_cells, "seeded_deeper_histories": n_random,
             "exhaustive_over": "every listed state class x every hook point its recovery reaches x kill and fail (all sampled k per multi-hit point); other torn lengths / garbage kinds with a seeded sample of sites"});
     } else {
